@@ -187,7 +187,7 @@ func checkC04(t *testing.T, run *vk.Run, cfg Cfg, hist []Op, a alphaOpts) vk.Ste
 func TestC04(t *testing.T) {
 	run := vk.NewRun("C04", "model_checking")
 	defer run.Finish()
-	run.SetRule("breadth-first exploration of all histories over {Append of every contiguous chain slice of length 1..3 (thorough: + gapped pairs), tail/head/whole/middle/beyond DeleteRange, Restart, ReadAll} on the real store.Store for every (batch size, cache size, datastore flavour); states deduplicated on (datastore image, pending set, cache key lists, pointers, published height, model); distinct = distinct public-API observation vectors")
+	run.SetRule("breadth-first exploration of all histories over {Append of every contiguous chain slice of length 1..3 (thorough: + gapped pairs), tail/head/whole/middle/beyond DeleteRange, Append directly followed by DeleteRange on a slow datastore, Restart, ReadAll} (+ a restart probe on every state of the last level) on the real store.Store for every (batch size, cache size, datastore flavour); states deduplicated on (datastore image, pending set, cache key lists, pointers, published height, model); distinct = distinct public-API observation vectors")
 	run.Assume("2Q cache ghost lists are not part of the state key (cache key lists in order are)")
 	run.Assume("reference model = set of live heights; acceptance reference uses the observed Head/Tail")
 
@@ -218,6 +218,26 @@ func TestC04(t *testing.T) {
 		if r.Capped {
 			run.NotExhaustive("time budget hit during " + cfg.String())
 		}
+		// restart probe: the states of the last level are not expanded by the search; a clean
+		// Stop/Start is applied to each of them all the same (the invariants are owed after a restart too)
+		var frontier [][]Op
+		for _, h := range r.Histories {
+			if len(h) == depth && h[len(h)-1].K != "restart" {
+				frontier = append(frontier, h)
+			}
+		}
+		fq := vk.NewWorkQueue(len(frontier))
+		vk.Shards(t, vk.NumShards(), func(t *testing.T, shard int) {
+			for {
+				i, ok := fq.Next()
+				if !ok || dl.Hit() {
+					return
+				}
+				run.AddEval(1)
+				checkC04(t, run, cfg, append(append([]Op(nil), frontier[i]...), Op{K: "restart"}), a)
+			}
+		})
+		totalTrans += len(frontier)
 		// determinism: re-execute a subset of histories, the state key must not change
 		for i := 0; i < len(r.Histories); i += 1 + len(r.Histories)/40 {
 			k1 := checkC04(t, run, cfg, r.Histories[i], a).Key
